@@ -15,7 +15,7 @@ from .values import (ObjModel, Pointer, NULL, CVector, VecPtr, VectorFactory, Bo
                      SuperProxy, ShimModule, GARBAGE)
 from .front import (REPO, MODULE_FILES, ALIASES, parse_file, ClassInfo, ModuleInfo, FuncInfo,
                     make_funcinfo, collect_class_body, ctype_of_decl, decl_name, func_or_none)
-from .npshim import NpShim
+from .npshim import NpShim, ScipyShim
 from .exprs import ExprMixin, exact, INT_TYPES
 
 
@@ -75,6 +75,7 @@ class Interp(ExprMixin):
         self.repo = repo or REPO
         self.modules = {}
         self.np = NpShim()
+        self.scipy = ScipyShim()
         self._eval_tab = {}
         self._exec_tab = {}
         self._cvar_cache = {}
@@ -228,13 +229,18 @@ class Interp(ExprMixin):
         return None
 
     def import_module(self, name, fr=None, want_top=False):
-        if name in MODULE_FILES or name in ALIASES and fr is not None and fr.module.name.startswith("bioscrape") \
-                and fr.module.path.endswith(".pyx") and name != "random":
+        if name in MODULE_FILES:
             return self.load(name)
+        if fr is not None and fr.module.path.endswith(".pyx") and "bioscrape." + name in MODULE_FILES:
+            return self.load("bioscrape." + name)     # language_level 2: implicit relative import
         if name in ("numpy",):
             return self.np
         if name in self.shims:
             return self.shims[name]
+        if name == "scipy":
+            return self.scipy
+        if name == "scipy.special":
+            return self.scipy.special
         m = importlib.import_module(name)
         if want_top and "." in name:
             return importlib.import_module(name.split(".")[0])
@@ -981,7 +987,7 @@ class Interp(ExprMixin):
             for name, asn in names:
                 fr.module.ns[asn or name] = self.LIBC[name]
             return
-        if nm == "vector":
+        if nm in ("vector", "bioscrape.vector"):
             fr.module.ns["vector"] = VectorFactory()
             return
         if nm.startswith("libc") or nm.startswith("cython") or nm.startswith("cpython") or nm == "numpy":
